@@ -4,7 +4,9 @@
    Type tags: 0 u8, 1 i8, 2 u16, 3 i16, 4 u32, 5 i32, 6 u64, 7 i64, 8 u128, 9 i128, 10 usize,
    11 isize, 12 f32, 13 f64.  Wrapper w: 0 plain, 1 Wrapping<_>, 2 Saturating<_>.
 
-     (19 1 w tag n)          FromUsize::from_usize(n): () | (v) ; floats: (1) = Some(n as f)
+     (19 1 w tag n)          FromUsize::from_usize(n): () | (v) ; floats: (bits) = the IEEE-754 bit
+                             pattern of Some(n as f), computed by Model/FloatConv.v (round to
+                             nearest even in integer arithmetic; Proofs/C19F.v: it IS the nearest)
      (19 2 w tag)            ZeroOne: (zero one)
      (19 3 w tag op a b)     op 0 add, 1 sub, 2 mul, 3 div, 4 neg (b ignored) on integers a b of the type,
                              all owned/borrowed forms: (0 v) | (2) panic.
@@ -44,13 +46,28 @@
                              Matrix::euclidean_length of v as a column and as a row,
                              Row/ColumnMajorOwnedIterator::from_numeric and
                              TensorOwnedIterator::from_numeric over the matrix, Trace::pi(), Record::pi()
+     (19 14 ty n (data) (ddata) (xs) (dxs))  ty 0 1: Trace<T> / Record<T> as ELEMENT TYPES: the n x n
+                             matrix of Trace { data[i], ddata[i] } (n <= 3) and the vector of
+                             Trace { xs[i], dxs[i] } through determinant (matrix and tensor route),
+                             inverse (both routes), mean, variance, A * A, softmax (Real-bounded),
+                             Tensor::euclidean_length (Real-bounded), f1_score(first, last): every
+                             scalar as (number derivative).  The harness runs the same at Record<T>
+                             with every input a variable on ONE tape and answers
+                             (number, sum_i d result / d input_i * seed_i), which must be the same.
+                             The model runs the routines' models at Model/WrapperNum.v's dictionary.
+     (19 15 ty n (data))     determinant / inverse of an n x n matrix (n <= 3) at element types whose
+                             division by zero PANICS (ty 2 Wrapping<i64>, 4 i64 on small entries; 3 Whole
+                             and 0 1 allowed): (outcome-of-option determinant, inverse by the Matrix
+                             route, inverse by the Tensor route) — a singular input must answer
+                             (0 ()) = Ok(None), never a panic: the routine may not divide before it
+                             has compared the determinant with zero (seed C19-v2)
    The model evaluates every form function of Model/Numeric.v and prints their common result
    ((99 ..) should they differ, which Proofs/C19P.v excludes).
    ty: 0 Rat, 1 Fp, 2 Wrapping<i64>, 3 Whole (unbounded integers, truncating division), 4 i64. *)
 From Coq Require Import List ZArith NArith Bool.
 From EasyML Require Import Base.Sx Model.Shape Model.Tensor Model.Num Model.Tape Model.Numeric Model.Arith
-     Model.Whole.
-From EasyML Require Model.Stats.
+     Model.Whole Model.FloatConv.
+From EasyML Require Model.Stats Model.LinAlg Model.WrapperNum.
 Import ListNotations.
 Open Scope Z_scope.
 
@@ -59,7 +76,10 @@ Definition wrapper_ok (w : Z) : bool := (0 <=? w) && (w <=? 2).
 
 Definition c19_from_usize (w tag : Z) (n : N) : sx :=
   if is_float tag then
-    match from_usize_float n with Some _ => SL [SZ 1] | None => SL [] end
+    match from_usize_float n with
+    | Some c => SL [SZ (if tag =? 12 then f32_bits_of_usize c else f64_bits_of_usize c)]
+    | None => SL []
+    end
   else match ity_of_tag tag with
        | Some t => sopt SZ (if w =? 0 then from_usize t n else from_usize_wrapper t n)
        | None => bad_case
@@ -288,6 +308,55 @@ Definition c19_user (op : Z) (args : list sx) : sx :=
   end.
 End User.
 
+(* ---- (19 14): Trace<T> as the element type of the generic routines ---- *)
+Definition c19_wrapper_elems {R} (ops : numops R) (n : N) (data ddata xs dxs : list R) : sx :=
+  let W := WrapperNum.wrapper_numops ops in
+  let lift := fun l dl => map (fun p => mkTrace (fst p) (snd p)) (combine l dl) in
+  let el := lift data ddata in
+  let v := lift xs dxs in
+  let rows := chunks (N.to_nat n) (N.to_nat n) el in
+  let st := nenc W in
+  let smat := fun m : list (list (trace R)) => slist (slist st) m in
+  SL [ sopt st (LinAlg.det_matrix W rows); sopt st (LinAlg.det_tensor W rows);
+       sopt smat (LinAlg.inverse_matrix W rows); sopt smat (LinAlg.inverse_tensor W rows);
+       soutcome st (Stats.mean W v); soutcome st (Stats.variance W v);
+       soutcome (fun m => slist st (m_data m))
+                (obind (from_flat_row_major n n el) (fun a => m_matmul W (OM a) (OM a)));
+       slist st (Stats.softmax W v);
+       st (nsqrt W (fold_left (nadd W) (map (fun x => nmul W x x) v) (nzero W)));
+       st (Stats.f1_score W (hd (nzero W) v) (last v (nzero W))) ].
+
+Definition c19_wrapper_case {R} (ops : numops R) (args : list sx) : sx :=
+  match args with
+  | [n; data; ddata; xs; dxs] =>
+      match dN n, dlist (ndec ops) data, dlist (ndec ops) ddata, dlist (ndec ops) xs, dlist (ndec ops) dxs with
+      | Some n, Some data, Some ddata, Some (x :: xs), Some dxs =>
+          if (1 <=? n)%N && (n <=? 3)%N && (n * n =? N.of_nat (length data))%N
+             && Nat.eqb (length data) (length ddata) && Nat.eqb (S (length xs)) (length dxs)
+          then c19_wrapper_elems ops n data ddata (x :: xs) dxs else bad_case
+      | _, _, _, _, _ => bad_case
+      end
+  | _ => bad_case
+  end.
+
+(* ---- (19 15): determinant / inverse at any element type, singular inputs included ---- *)
+Definition c19_inverse_any {R} (ops : numops R) (args : list sx) : sx :=
+  match args with
+  | [n; data] =>
+      match dN n, dlist (ndec ops) data with
+      | Some n, Some data =>
+          if (1 <=? n)%N && (n <=? 3)%N && (n * n =? N.of_nat (length data))%N then
+            let rows := chunks (N.to_nat n) (N.to_nat n) data in
+            let smat := fun m : list (list R) => slist (slist (nenc ops)) m in
+            SL [ soutcome (sopt (nenc ops)) (Ok (LinAlg.det_matrix ops rows));
+                 soutcome (sopt smat) (Ok (LinAlg.inverse_matrix ops rows));
+                 soutcome (sopt smat) (Ok (LinAlg.inverse_tensor ops rows)) ]
+          else bad_case
+      | _, _ => bad_case
+      end
+  | _ => bad_case
+  end.
+
 Definition run_c19 (args : list sx) : sx :=
   match args with
   | [SZ 1; SZ w; SZ tag; n] =>
@@ -307,6 +376,11 @@ Definition run_c19 (args : list sx) : sx :=
   | SZ 12 :: SZ ty :: rest =>
       if (ty =? 3) || (ty =? 4) then c19_user Wholeops 12 rest
       else with_ty3 ty (fun R ops => c19_user ops 12 rest)
+  | SZ 15 :: SZ ty :: rest =>
+      if (ty =? 3) || (ty =? 4) then c19_inverse_any Wholeops rest
+      else with_ty3 ty (fun R ops => c19_inverse_any ops rest)
+  | SZ 14 :: SZ ty :: rest =>
+      if (ty =? 0) || (ty =? 1) then with_ty3 ty (fun R ops => c19_wrapper_case ops rest) else bad_case
   | SZ 13 :: SZ ty :: rest =>
       if (ty =? 0) || (ty =? 1) then with_ty3 ty (fun R ops => c19_user ops 13 rest) else bad_case
   | SZ op :: SZ ty :: rest =>
